@@ -40,7 +40,16 @@ fn case_strategy(tier: Tier) -> BoxedStrategy<ChaosCase> {
         Tier::Thorough => 200,
     };
     (
-        any::<u64>(),
+        // "for all seeds": boundary values of the integer type next to arbitrary ones
+        prop_oneof![
+            1 => Just(0u64),
+            1 => Just(1u64),
+            1 => Just(u64::MAX),
+            1 => Just(1u64 << 32),
+            1 => Just(u32::MAX as u64),
+            1 => Just(i64::MAX as u64),
+            8 => any::<u64>(),
+        ],
         rate(),
         rate(),
         prop_oneof![Just(0u64), 0u64..=30],
